@@ -15,7 +15,7 @@
 (*     used for n <= 6;                                                      *)
 (*   * polynomial ones (fixpoint closure, Kahn order, tables folded over a   *)
 (*     topological order) -- used for graphs up to 40 nodes.                 *)
-(* TLC cross-checks the two families on all small graphs (section MC).       *)
+(* TLC cross-checks the two families on all small graphs (DagMC.tla).        *)
 EXTENDS Naturals, Sequences, FiniteSets, TLC
 
 -----------------------------------------------------------------------------
